@@ -21,6 +21,28 @@ WRITE_MODULES = ('server::streaming::segments::logs', 'server::streaming::segmen
                  'server::streaming::systems::storage', 'server::quic', 'server::tcp', 'server::http::http_server', 'server::server_error', 'server::streaming::partitions::storage')
 
 
+def _rebuilt_length(ctx, rep):
+    """the message handed back after decryption carries the plaintext length together with the plaintext payload"""
+    PM = 'iggy::models::messages::PolledMessage'
+    SYSF = SYS + '::poll_messages'
+    found = 0
+    for d_ in [x for x in ctx.facts.body_defs() if x == SYSF or x.startswith(SYSF + '::{closure')]:
+        kb = ctx.body(d_)
+        for blk in sorted(kb.reach):
+            for st in kb.stmts(blk):
+                rv = st.get('rv')
+                if rv and rv['r'] == 'agg' and rv.get('adt') == PM and not st.get('x', '').startswith('m:'):
+                    e = kb._pexpr_rvalue(rv, 0, frozenset())
+                    f_ = dict((n, canon(v, 0, 3)) for n, v in e[3])
+                    pl, ln_ = f_.get('payload', ''), f_.get('length', '')
+                    found += 1
+                    ok = 'decrypt' in pl and 'decrypt' in ln_ and 'len(' in ln_
+                    rep.ob('R19.b', SYSF, 'decrypted message carries the plaintext length', ok, '%s:%s' % (kb.file, st.get('ln')), 'length: %s' % ln_[:80] if ok else
+                           'the message rebuilt after decryption has payload `%s` but length `%s`: the reader is told the ciphertext length for a plaintext payload' % (pl[:60], ln_[:60]))
+    if not found:
+        rep.anchor_lost('R19.b', 'PolledMessage rebuilt in System::poll_messages')
+
+
 def run(ctx, rep):
     rep.rule('R19.a', 'payloads are encrypted before they reach a partition: under Some(encryptor) every message payload := Ok(encrypt(payload)), errors abort, the topic append follows the loop and has no other caller', floor=6, analysis='A2+A9+A1')
     b = ctx.fn_body(SYS + '::append_messages')
@@ -63,6 +85,27 @@ def run(ctx, rep):
     nb = ctx.fn_body(SYS + '::new')
     tie = any(render(e).endswith('encryption.enabled') or (e[0] == 'field' and e[2] == 'enabled' and any(x[0] == 'field' and x[2] == 'encryption' for x in walk(e))) for bb_, t_, e in switch_exprs(nb))
     rep.ob('R19.a', SYS + '::new', 'encryptor ⇔ encryption.enabled', tie, None, None if tie else 'the encryptor is not tied to config.encryption.enabled')
+    # enabled ⇒ an encryptor exists: on the enabled edge no `None` is produced for the encryptor (an unusable key must stop the server, not switch encryption off)
+    sel = None
+    for bb_, t_, e in switch_exprs(nb):
+        if t_.get('ty') == 'bool' and (render(e).endswith('encryption.enabled') or (e[0] == 'field' and e[2] == 'enabled')):
+            sel = (bb_, t_)
+    if sel is None:
+        rep.anchor_lost('R19.a', 'branch on config.encryption.enabled in System::new')
+    else:
+        bb_, t_ = sel
+        tt, tf = bool_targets(t_)
+        region = nb.reachable(tt, avoid_blocks={bb_}) - nb.reachable(tf, avoid_blocks={bb_}) if tt is not None and tf is not None else set()
+        nones = []
+        for blk in sorted(region):
+            for st in nb.stmts(blk):
+                rv = st.get('rv') or {}
+                if rv.get('r') == 'agg' and rv.get('adt') == 'std::option::Option' and rv.get('variant') == 'None' and not st.get('x', '').startswith('m:'):
+                    ty = nb.locals[st['lhs'][0]] if st.get('lhs') else ''
+                    if 'EncryptorKind' in ty:
+                        nones.append('%s:%s' % (nb.file, st.get('ln')))
+        rep.ob('R19.a', SYS + '::new', 'enabled ⇒ Some(encryptor)', not nones, nones[0] if nones else None,
+               'no path of the enabled arm yields None' if not nones else 'with encryption enabled System::new can continue with encryptor = None (an unusable key switches encryption off silently: payloads and journalled commands are stored in clear)')
 
     rep.rule('R19.b', 'polls decrypt or fail: under Some(encryptor) the returned messages are rebuilt from decrypt Ok results; a decrypt error is returned as CannotDecryptData', floor=4, analysis='A2+A3')
     pb = ctx.fn_body(SYS + '::poll_messages')
@@ -124,6 +167,7 @@ def run(ctx, rep):
                'Ok without decrypt only when no encryptor / nothing polled' if not bad else 'an Ok return skips decryption although an encryptor may be configured')
         arg = canon(pb.pexpr_operand(dcall.args[1]), 0, 1)
         rep.ob('R19.b', SYS + '::poll_messages', 'decrypts the payload', arg.endswith('.payload'), dcall.where(), 'decrypt(%s)' % arg)
+    _rebuilt_length(ctx, rep)
 
     rep.rule('R19.c', 'journal entries: encrypted re-framed command appended under Some(encryptor); decrypt before decoding at load; errors propagated', floor=4, analysis='A9+A2')
     APPLY = '<server::state::file::FileState as server::state::State>::apply'
